@@ -196,6 +196,14 @@ func (c *Converter) ExpandContainerValue(ctx context.Context, p *sdcpb.Path, jv 
 					return nil, fmt.Errorf("key %q is present in both the path and JSON value", k.Name)
 				}
 				keySet[k.Name] = fmt.Sprintf("%v", v)
+				// the key value of the path is the canonical form of the key leaf's value (a JSON_IETF
+				// identityref is spelled module:name), otherwise the same entry gets two paths
+				if ktv, err := TypedValueToYANGType(&sdcpb.TypedValue{Value: &sdcpb.TypedValue_StringVal{StringVal: keySet[k.Name]}},
+					&sdcpb.SchemaElem{Schema: &sdcpb.SchemaElem_Field{Field: k}}); err == nil {
+					if _, isIdentity := ktv.GetValue().(*sdcpb.TypedValue_IdentityrefVal); isIdentity {
+						keySet[k.Name] = TypedValueToString(ktv)
+					}
+				}
 				continue
 			}
 			if v, ok := keysInPath[k.Name]; ok {
